@@ -17,7 +17,7 @@ pids+=($!)
 rc=0
 for p in "${pids[@]}"; do wait $p || rc=1; done
 [ $rc = 0 ] || { echo "harness compile failed" >&2; exit 1; }
-WRAP="-Wl,--wrap=regexec -Wl,--wrap=gettimeofday -Wl,--wrap=RAND_bytes -Wl,--wrap=pthread_create -Wl,--wrap=pthread_detach"
+WRAP="-Wl,--wrap=regexec -Wl,--wrap=gettimeofday -Wl,--wrap=RAND_bytes -Wl,--wrap=pthread_create -Wl,--wrap=pthread_detach -Wl,--wrap=pthread_cond_timedwait"
 objs=""; for f in $OTHERS; do objs="$objs $OUT/$f.o"; done
 gcc $CF $WRAP "$OUT/hmain.o" $objs -o "$OUT/hmain" -lssl -lcrypto -lnettle -lresolv
 echo ok > "$OUT/.built"
